@@ -183,7 +183,7 @@ def run(chk):
                         v, d = PROVED, ""
                     elif has_top(tuple(rd)) or has_top(tuple(rs_)):
                         v, d = UNDECIDED, "abstract results contain top"
-                    elif not definite_diff(tuple(rd), tuple(rs_)):
+                    elif not definite_diff_outcomes(rd, rs_):
                         v, d = UNDECIDED, "results differ only where one side is an uninterpreted call: %s" % first_diff(rd, rs_)
                     else:
                         v, d = REFUTED, "Lut and StaticLut give different abstract results: %s" % first_diff(rd, rs_)
@@ -237,7 +237,7 @@ def run(chk):
                     v, d = PROVED, ""
                 elif has_top(tuple(rd)) or has_top(tuple(rs_)):
                     v, d = UNDECIDED, "abstract results contain top"
-                elif not definite_diff(tuple(rd), tuple(rs_)):
+                elif not definite_diff_outcomes(rd, rs_):
                     v, d = UNDECIDED, "results differ only where one side is an uninterpreted call: %s" % first_diff(rd, rs_)
                 else:
                     v, d = REFUTED, "Lut and StaticLut give different abstract results: %s" % first_diff(rd, rs_)
@@ -391,6 +391,22 @@ def definite_diff(a, b):
     if len(a) >= 2 and a[0] == "Opaque" and (a[1] == "uf" or b[1] == "uf"):
         return False
     return any(definite_diff(x, y) for x, y in zip(a, b) if x != y)
+
+
+def definite_diff_outcomes(ra, rb):
+    """two lists of abstract outcomes (kind, path condition, value ...) differ *definitely* only when they split the
+    inputs the same way (same number of paths with the same conditions) and some aligned pair differs definitely - or
+    when one side always panics and the other never does.  One body returning along three paths and the other through
+    a comparison summary is a difference of representation, which decides nothing."""
+    ka, kb = {o[0] for o in ra}, {o[0] for o in rb}
+    if ka and kb and ((ka == {"panic"} and kb == {"return"}) or (ka == {"return"} and kb == {"panic"})):
+        return True
+    if len(ra) != len(rb):
+        return False
+    for x, y in zip(ra, rb):
+        if x[1] != y[1]:
+            return False
+    return definite_diff(tuple(ra), tuple(rb))
 
 
 def first_diff(a, b, path="result"):
